@@ -68,6 +68,7 @@ type rpcState struct {
 	CutAt        int // offset at which the request body was cut (-1 none)
 	CutKind      string
 	orig         origRequest
+	cfg          *ConfigPlan
 	respEndLen   int      // payload length of the backend's end-of-stream / trailer frame (0: none)
 	respLen      int      // length of the body the backend rendered (for fault enumeration)
 	respComp     string   // compression the backend used
@@ -333,6 +334,7 @@ func Run(plan *Plan) *RunResult {
 // prepareRPC renders the client's request and builds the *http.Request the way a Go server would.
 func prepareRPC(st *rpcState, cfg *ConfigPlan) {
 	st.plan.normalize()
+	st.cfg = cfg
 	cp := &st.plan.Client
 	var svc *ServicePlan
 	for i := range cfg.Services {
